@@ -3,7 +3,7 @@
 from props.common_prog import judge_prog
 
 THEOREM_MODULES = ["Hcl.Theorems.C16", "Hcl.Theorems.C16ReadBack", "Hcl.Tie.Banks", "Hcl.Tie.PinsDump", "Hcl.Proofs.NamesAreIdentifiers", "Hcl.Theorems.FromText"]
-THEOREMS = {"Hcl.Theorems.FromText": ["C16_dump_readback_from_text"", "C16_goodBank_from_text""],
+THEOREMS = {"Hcl.Theorems.FromText": ["C16_dump_readback_from_text'", "C16_goodBank_from_text'"],
             "Hcl.Proofs.NamesAreIdentifiers": ["C16_names_from_text", "C16_names_are_identifiers", "C16_values_fit", "C16_goodBank_from_text", "C16_dump_readback_from_text", "Lexer.identifier_shape", "Parser.names_are_tokens", "Program_new_banks_from_decls"],
             "Hcl.Theorems.C16ReadBack": ["C16_dump_readback", "C16_registers_readback", "C16_memory_readback", "Dump.state_parse", "Dump.state_readback_error", "Dump.bank_readback", "Spec.DumpFormat.toNat?_toDec"],
             "Hcl.Tie.Banks": ["Tie.Banks.bankOrder"], "Hcl.Theorems.C16": ["C16_hex_roundtrip", "C16_hexpad_roundtrip", "hexDigits_roundtrip", "C16_memory_text", "C16_memory_tokens",
